@@ -100,7 +100,12 @@ def script_from_log(env, H='11' * 32):
     """Replay script: answers in the order the model gave them."""
     steps = []
     for x in env.log:
-        if x[0] == 'listsendpays':
+        if len(x) > 1 and x[1] in ('FAULT', 'FAULT-REJECT', 'FAULT-LOST-ACK'):
+            steps.append({'method': x[0], 'fault': x[2]})
+        elif x[0] == 'timer':
+            ns = x[2]
+            steps.append({'advance_ms': (int(ns) // 1000000 if isinstance(ns, int) else 1000) + 1})
+        elif x[0] == 'listsendpays':
             want = x[1]
             parts = [{'id': pid, 'status': st} for pid, st in x[2] if st == want]
             steps.append({'method': 'listsendpays', 'status': want, 'parts': parts})
@@ -116,8 +121,6 @@ def script_from_log(env, H='11' * 32):
         elif x[0] == 'pay':
             if x[1] == 'returns':
                 steps.append({'method': 'pay', 'outcome': x[2]})
-        elif len(x) > 1 and x[1] == 'FAULT':
-            steps.append({'method': x[0], 'fault': x[2]})
     return steps
 
 def report(rep, name, ex, pid=PID, kind='wait_payment'):
@@ -149,6 +152,9 @@ def native_violates(nat, script):
     final = dict((p, s) for p, s in script['final_parts'])
     anyc = any(s == 'complete' for s in final.values())
     anyp = any(s == 'pending' for s in final.values())
+    faulted = any('fault' in st for st in script.get('steps', []))
+    if res == 'err' and faulted:
+        return False            # an injected RPC error may be passed on: the oracle only forbids Ok(None) / a wrong Ok(Some)
     if res == 'none' or res == 'err':
         return anyc or anyp
     if res == 'some':
@@ -159,9 +165,9 @@ def main(tier, seed, args):
     rep = Report(PID, tier, seed, 'model_checking')
     c = ctx('on')
     nparts = (0, 1, 2) if tier == 'quick' else (0, 1, 2, 3)
-    codes = (204, 208) if tier == 'quick' else (202, 203, 204, 208, 209)
+    codes = (202, 203, 204, 208, 209)      # every code wait_payment treats as 'this part is over'
     rep.bounds = {'parts': max(nparts), 'waitsendpay_failure_codes': list(codes),
-                  'faults': '0 (quick) / 1 non-tolerated RPC error (thorough)',
+                  'faults': '1 non-tolerated RPC error on listsendpays or waitsendpay (codes 200 / transport; thorough: also -1, 999)',
                   'outside': 'more than %d parts; parts created while waiting (a running pay is C16)' % max(nparts)}
     rep.assumptions = ['node model of listsendpays / waitsendpay (env_node.py): part states are monotone; each RPC takes effect at one linearisation point',
                        'futures 0.3 FuturesUnordered: yields any ready member; tokio join!: expansion executed from the crate MIR',
@@ -173,8 +179,9 @@ def main(tier, seed, args):
         report(rep, 'wait_payment[%d parts]' % k, ex)
         if ex.violations:
             break
-    if tier == 'thorough' and not rep.violations:
-        h = WaitHarness(c, 2, (204,), faults=1, fault_codes=((-1, 'Rpc'), (200, 'Rpc'), (999, 'Rpc'), (None, 'General')))
+    if not rep.violations:
+        fc = ((200, 'Rpc'), (None, 'General')) if tier == 'quick' else ((-1, 'Rpc'), (200, 'Rpc'), (999, 'Rpc'), (None, 'General'))
+        h = WaitHarness(c, 2, (204,), faults=1, fault_codes=fc)
         ex = run_explorer(rep, c, h, 'wait_payment[2 parts, 1 rpc fault]', max_states=300000)
         report(rep, 'wait_payment[faults]', ex)
     finish(rep, [c], './check C15 --tier ' + tier)
